@@ -70,6 +70,7 @@ class Adapter:
         self.c, self.kind, self.precision = c, c['kind'], precision
         self.dtype, self.scale = PRESENTATIONS[pres]
         self.input_modified = None
+        self.side_violation = None
         self.sub = sub or {'part': 'anova'}.get(self.kind)
         k = self.kind
         classes = None if partitions_auto else np.array(c['classes'], dtype='int32')
@@ -121,6 +122,16 @@ class Adapter:
             # numpy-only distinguishers - each new layout costs the compiled kernels of the others a fresh specialisation
             t, d = np.asfortranarray(t), np.asfortranarray(d)
         t0, d0 = t.copy(), d.copy()
+        if self.kind in ('cpa', 'dpa') and self.nupdates % 3 == 0 and t.ndim == 2:
+            # the batch first offered as numpy.matrix (an ndarray subclass with its own reduction shapes): either it is taken like the plain array,
+            # or it is refused - and then nothing of it may stay behind (C16); the plain array follows in that case
+            before = self.snapshot()
+            try:
+                self.o.update(np.asmatrix(t), d)
+                return
+            except Exception:       # noqa
+                if self.snapshot() != before:
+                    self.side_violation = 'a batch refused as numpy.matrix leaves the object state bit-identical'
         try:
             if self.kind == 'ttest':
                 self.o.update(t)
